@@ -197,6 +197,11 @@ bool parse_plan(std::istream &is, Plan &p, std::string &expect)
     return true;
 }
 
+// bigsweep: bounds of the large-field runs
+constexpr size_t BIG_CELLS = size_t(1) << 23; // lattice cells
+constexpr size_t BIG_STORAGE_CELLS = size_t(1) << 24; // cells of (padded) storage
+constexpr size_t BIG_SCALARS = size_t(13) << 19; // ~6.8 million stored scalars per field
+
 // ------------------------------------------------------------------ world state
 enum SlotState : int { S_EMPTY, S_LIVE, S_MOVED, S_DEFAULT, S_INDET };
 
@@ -267,16 +272,42 @@ struct World {
     }
 
     // --- model helpers
-    static ModelField convert_model(const StackDesc &dst, const StackDesc &src, const ModelField &m, bool narrow_ok)
+    // Do two stacks share the type of their storage (storage-order layer and everything
+    // beneath it)? Then a conversion copies that storage object as it is; otherwise it
+    // re-lays the lattice out into fresh storage of exactly the size the order needs.
+    static bool same_storage_type(const StackDesc &a, const StackDesc &b)
+    {
+        if (a.storage != b.storage || a.layout_depth < 0 || b.layout_depth < 0 || a.device != b.device)
+            return false;
+        auto tail = [](const StackDesc &d) {
+            std::string n = d.norm, t;
+            int seen = 0;
+            for (size_t i = 0, start = 0; i <= n.size(); ++i)
+                if (i == n.size() || n[i] == '/') {
+                    if (seen++ >= d.layout_depth)
+                        t += n.substr(start, i - start) + "/";
+                    start = i + 1;
+                }
+            return t;
+        };
+        return tail(a) == tail(b);
+    }
+
+    // from_file: the reader takes the element count from the stream, whatever it is
+    static ModelField convert_model(const StackDesc &dst, const StackDesc &src, const ModelField &m, bool narrow_ok, bool from_file = false)
     {
         ModelField r;
         r.stack = dst.index;
         r.ext = m.ext;
         r.cfg.assign(dst.depth, Bytes());
+        bool keeps_storage = from_file || same_storage_type(dst, src);
         for (int i = 0; i < dst.depth && i < src.depth; ++i) {
             const LayerDesc &l = dst.layers[i];
             if (l.kind == LK_ARRAY || l.kind == LK_CUDA) {
-                put_scal(r.cfg[i], SC_U64, (double)storage_len(dst, m.ext));
+                size_t n = storage_len(dst, m.ext);
+                if (keeps_storage && src.layers[i].kind == l.kind)
+                    n = std::max(n, array_count(src, m));
+                put_scal(r.cfg[i], SC_U64, (double)n);
             } else
                 r.cfg[i] = m.cfg[i];
         }
@@ -390,8 +421,13 @@ struct World {
         if (cuda::fault_fired())
             cnt.inc("fired.cuda");
 #endif
-        if (alloc::big_refused())
+        if (alloc::big_refused()) {
+            // the simulated machine has 256 MiB per request: a larger one is refused, which
+            // the operation may answer with bad_alloc like any other allocation failure
             cnt.inc("fired.machine_limit");
+            if (plan.profile == "hugesweep")
+                fired = true; // only where the plan asks for more than the machine has
+        }
         alloc::end_op();
 #ifdef SIM_HAVE_CUDA_SHIM
         cuda::begin_op(0);
@@ -448,16 +484,84 @@ struct World {
             for (auto &e : ext)
                 if (e == 0)
                     e = 1;
-            if (d.shape != SHAPE_NONE && (storage_len(d, ext) > 300000 || volume(ext) > 8192))
+            bool big = plan.profile == "bigsweep" || plan.profile == "hugesweep";
+            // (a hugesweep plan whose extents were shrunk by the minimiser is an ordinary construction)
+            bool huge = plan.profile == "hugesweep" && d.shape == SHAPE_LAYOUT && (storage_len(d, ext) > BIG_STORAGE_CELLS || volume(ext) > BIG_CELLS);
+            if (!huge && d.shape != SHAPE_NONE && (storage_len(d, ext) > (big ? BIG_STORAGE_CELLS : 300000u) || volume(ext) > (big ? BIG_CELLS : 8192u)))
                 break;
             destroy_slot(A);
+            if (huge) {
+                // A lattice of 2^31 .. 2^40 cells: more than the simulated machine can give. The
+                // constructor either reports that (bad_alloc) or, should it return, owns storage
+                // for every cell it describes - the comparison of the array layer's element count
+                // with the model decides; the cells themselves are never walked.
+                ModelField m;
+                Rng r(op.vseed);
+                Rng rc = r.fork("cfg");
+                gen_cfgs(d, ext, rc, true, (ValMode)plan.vmode, m);
+                void *mem = raw_alloc(ops_of(op.stack));
+                // from the extents alone where the layer offers that (it then computes the
+                // element count itself), otherwise from the full parameter pack
+                bool shortf = ops_of(op.stack).construct_short != nullptr && (op.vseed & 3) != 0;
+                int rcode = guarded(
+                    op,
+                    [&] {
+                        if (shortf)
+                            ops_of(op.stack).construct_short(mem, m);
+                        else
+                            ops_of(op.stack).construct(mem, m);
+                    },
+                    what,
+                    fired
+                );
+                executed = true;
+                cnt.inc("probe.construction_beyond_the_machine_size");
+                if (shortf)
+                    cnt.inc("probe.huge_construction_from_extents_alone");
+                if (rcode) {
+                    std::free(mem);
+                    if (what != "bad_alloc" && !expect_no_throw(rcode, op.stack))
+                        return;
+                    cnt.inc("observed.huge_construction_refused_with_bad_alloc");
+                } else {
+                    A.state = S_LIVE;
+                    A.stack = op.stack;
+                    A.obj = mem;
+                    A.model = m;
+                    cnt.inc("observed.huge_construction_returned_a_field");
+                }
+                break;
+            }
             ModelField m;
             Rng r(op.vseed);
-            Rng rc = r.fork("cfg"), rv = r.fork("val");
-            gen_cfgs(d, ext, rc, plan.nice != 0, (ValMode)plan.vmode, m);
+            Rng rc = r.fork("cfg"), rv = r.fork("val"), rs = r.fork("slack");
+            // now and then the array holds more elements than the storage order needs (a field
+            // built from the full parameter pack may say so): legal, and it must survive copies,
+            // dumps and loads like any other configuration value
+            size_t slack = 0;
+            if (d.shape == SHAPE_LAYOUT && rs.chance(0.1)) {
+                slack = (size_t)rs.range(1, 9);
+                cnt.inc("probe.array_storage_larger_than_the_lattice_needs");
+            }
+            gen_cfgs(d, ext, rc, plan.nice != 0, (ValMode)plan.vmode, m, slack);
             gen_values(d, rv, (ValMode)plan.vmode, plan.property == "C08", m);
             void *mem = raw_alloc(ops_of(op.stack));
-            int rcode = guarded(op, [&] { ops_of(op.stack).construct(mem, m); }, what, fired);
+            // half of the row-major fields are built the usual way, from the configurations
+            // without the array's element count (the storage-order layer sizes the array)
+            bool shortf = slack == 0 && ops_of(op.stack).construct_short != nullptr && rs.chance(0.5);
+            if (shortf)
+                cnt.inc("probe.constructed_from_extents_alone");
+            int rcode = guarded(
+                op,
+                [&] {
+                    if (shortf)
+                        ops_of(op.stack).construct_short(mem, m);
+                    else
+                        ops_of(op.stack).construct(mem, m);
+                },
+                what,
+                fired
+            );
             executed = true;
             if (rcode) {
                 std::free(mem);
@@ -670,7 +774,7 @@ struct World {
                 break;
             const StackDesc &dd = g_stacks[op.stack];
             const StackDesc &sd = g_stacks[B.stack];
-            if (storage_len(dd, B.model.ext) > 300000)
+            if (storage_len(dd, B.model.ext) > (plan.profile == "bigsweep" ? BIG_STORAGE_CELLS : 300000u))
                 break;
             destroy_slot(A);
             const SlotOps &o = ops_of(op.stack);
@@ -929,7 +1033,7 @@ struct World {
                     A.obj = mem;
                 }
                 A.state = S_LIVE;
-                A.model = rstack == f.stack ? f.model : convert_model(rd, wd, f.model, true);
+                A.model = rstack == f.stack ? f.model : convert_model(rd, wd, f.model, true, true);
                 A.model.stack = rstack;
                 ++mutating;
                 size_t consumed = sb.consumed(f.start);
@@ -1331,6 +1435,261 @@ Plan gen_sweep_plan(const std::string &property, const std::string &profile, uin
     return p;
 }
 
+// bigsweep (C05, C06, C07, C12, C15): a handful of operations on LARGE fields. The seeded
+// search lives on lattices of at most a few thousand cells, where it can afford thousands of
+// histories per second; code that switches strategy with size (block-wise or threaded copies,
+// staged reads, index arithmetic in a narrower type) only shows beyond a threshold. These runs
+// take the cell count log-uniformly from 2^14 up to 2^23 cells (about 6.8 million stored
+// scalars per field), with extents that are deliberately not round (odd, prime-like, one past
+// or short of a power of two). Item (conversion pair / stack / reader-writer pair) is chosen by
+// the run index, everything else by the seed.
+std::vector<size_t> gen_big_ext(Rng &r, const std::vector<const StackDesc *> &stacks, int cls)
+{
+    const StackDesc &d = *stacks[0];
+    int N = d.N;
+    size_t maxM = 1;
+    for (auto *sd : stacks)
+        maxM = std::max<size_t>(maxM, (size_t)sd->M);
+    for (int attempt = 0; attempt < 200; ++attempt) {
+        // class 0: 2^14..2^18, 1: 2^18..2^21, 2: 2^21..2^22, 3: 2^22..2^23 cells
+        static const double lo[] = {14, 18, 21, 22}, hi[] = {18, 21, 22, 23};
+        double bits = lo[cls] + r.unit() * (hi[cls] - lo[cls]);
+        double cells = std::exp2(bits);
+        if (cells * (double)maxM > (double)BIG_SCALARS)
+            cells = (double)BIG_SCALARS / (double)maxM * (0.8 + 0.2 * r.unit());
+        std::vector<size_t> e(N);
+        double rest = cells;
+        for (int k = 0; k < N; ++k) {
+            double share = std::pow(rest, 1.0 / (double)(N - k));
+            double f = k + 1 < N ? share * (0.6 + 0.9 * r.unit()) : rest;
+            size_t v = (size_t)std::max(2.0, std::floor(f));
+            switch (r.below(4)) {
+            case 0:
+                v |= 1; // odd
+                break;
+            case 1: {
+                size_t p2 = (size_t)pow2_ceil(v);
+                v = r.chance(0.5) ? p2 / 2 + 1 : (p2 > 2 ? p2 - 1 : p2); // next to a power of two
+                break;
+            }
+            case 2:
+                v = (size_t)pow2_ceil(v) / (r.chance(0.5) ? 1 : 2); // a power of two
+                break;
+            default:
+                break;
+            }
+            v = std::max<size_t>(v, 2);
+            e[k] = v;
+            rest = std::max(2.0, rest / (double)v);
+        }
+        if (r.chance(0.5))
+            std::swap(e[0], e[r.below(N)]);
+        bool ok = volume(e) <= BIG_CELLS;
+        for (auto *sd : stacks) {
+            size_t sl = storage_len(*sd, e);
+            if (sl > BIG_STORAGE_CELLS || sl * (size_t)sd->M * scal_size(sd->storage) > (size_t(120) << 20) || volume(e) * (size_t)sd->M > BIG_SCALARS)
+                ok = false;
+        }
+        if (ok)
+            return e;
+    }
+    return std::vector<size_t>(N, 17);
+}
+
+struct BigItem {
+    int a = -1, b = -1; // C05: dst, src; C07: reader, writer; others: stack
+};
+std::vector<BigItem> big_items(const std::string &property, bool thorough, const Disabled &dis)
+{
+    std::vector<BigItem> v;
+    auto usable = [&](int i) {
+        const StackDesc &d = g_stacks[i];
+        return (thorough || d.tier == 0) && !dis.core(d) && d.shape == SHAPE_LAYOUT && !d.device;
+    };
+    if (property == "C05") {
+        for (int k = 0; k < g_nconv; ++k) {
+            int d = g_conv_pairs[k][0], s = g_conv_pairs[k][1];
+            if (usable(d) && usable(s) && !dis.conv(g_stacks[d], g_stacks[s]))
+                v.push_back(BigItem{d, s});
+        }
+    } else if (property == "C07") {
+        for (int i = 0; i < g_nstacks; ++i)
+            for (int j = 0; j < g_nstacks; ++j)
+                if (i != j && usable(i) && usable(j) && !dis.io(g_stacks[i]) && !dis.io(g_stacks[j]) && !std::strcmp(g_stacks[i].norm, g_stacks[j].norm))
+                    v.push_back(BigItem{i, j});
+    } else {
+        for (int i = 0; i < g_nstacks; ++i)
+            if (usable(i) && (property == "C12" || !dis.io(g_stacks[i])))
+                v.push_back(BigItem{i, i});
+    }
+    return v;
+}
+
+Plan gen_big_plan(const std::string &property, uint64_t seed, uint64_t index, bool thorough, const Disabled &dis)
+{
+    Plan p;
+    p.property = property;
+    p.profile = "bigsweep";
+    p.seed = seed;
+    Rng rk(seed);
+    static const int chunks[] = {4096, 65536, 1 << 20, 8192, 0};
+    p.nslots = 3;
+    p.getbuf = chunks[rk.below(4)];
+    p.putbuf = chunks[rk.below(5)];
+    p.exc = (int)rk.below(3);
+    p.vmode = property == "C07" ? VAL_FINITE : VAL_ANY;
+    p.nice = 1;
+    p.seek = rk.chance(0.5) ? 1 : 0;
+    auto items = big_items(property, thorough, dis);
+    if (items.empty())
+        return p;
+    // The run index walks the items, single-component stacks first: only they reach the top
+    // size class (2^22 cells and more) within the scalar budget, and the first runs of every
+    // batch, however small, take that class. Otherwise the class is drawn from the seed.
+    std::stable_sort(items.begin(), items.end(), [](const BigItem &x, const BigItem &y) {
+        return (g_stacks[x.b].M == 1 && g_stacks[x.a].M == 1) > (g_stacks[y.b].M == 1 && g_stacks[y.a].M == 1);
+    });
+    size_t nm1 = 0;
+    for (auto &x : items)
+        if (g_stacks[x.b].M == 1 && g_stacks[x.a].M == 1)
+            ++nm1;
+    const BigItem &it = items[index % items.size()];
+    static const int classes[] = {0, 0, 1, 1, 1, 2, 3, 3};
+    int cls = classes[rk.below(8)];
+    if (index < std::min<size_t>(nm1, 8))
+        cls = 3;
+    auto nx = [&] { return rk.next() & 0xffffffffffffull; };
+    auto mk = [&](int kind, int a, int b, int stack) {
+        Op o;
+        o.kind = kind;
+        o.a = a;
+        o.b = b;
+        o.stack = stack;
+        o.vseed = nx();
+        p.ops.push_back(o);
+    };
+    std::vector<const StackDesc *> involved{&g_stacks[it.b]};
+    if (it.a != it.b)
+        involved.push_back(&g_stacks[it.a]);
+    Op c;
+    c.kind = OP_CONSTRUCT;
+    c.a = 0;
+    c.stack = it.b;
+    c.ext = gen_big_ext(rk, involved, cls);
+    c.vseed = nx();
+    p.ops.push_back(c);
+    bool io_ok = !dis.io(g_stacks[it.b]);
+    if (property == "C05") {
+        mk(OP_CONVERT_COPY, 1, 0, it.a);
+        mk(OP_LOOKUP, 1, 0, -1);
+        bool back = false;
+        for (int k = 0; k < g_nconv; ++k)
+            if (g_conv_pairs[k][0] == it.b && g_conv_pairs[k][1] == it.a && !dis.conv(g_stacks[it.b], g_stacks[it.a]))
+                back = true;
+        if (back) {
+            mk(OP_DESTROY, 0, 0, -1);
+            mk(OP_CONVERT_COPY, 2, 1, it.b);
+            mk(OP_LOOKUP, 2, 0, -1);
+        }
+        mk(OP_WRITE, 1, 0, -1);
+    } else if (property == "C06") {
+        mk(OP_DUMP, 0, 0, -1);
+        mk(OP_LOAD, 1, 0, it.b);
+        mk(OP_DESTROY, 0, 0, -1);
+        mk(OP_REDUMP, 1, 0, -1);
+        mk(OP_LOOKUP, 1, 0, -1);
+    } else if (property == "C07") {
+        mk(OP_DUMP, 0, 0, -1);
+        mk(OP_DESTROY, 0, 0, -1);
+        mk(OP_LOAD, 1, 0, it.a);
+        mk(OP_LOOKUP, 1, 0, -1);
+        mk(OP_DUMP, 1, 1, -1);
+    } else if (property == "C12") {
+        mk(OP_COPY_CTOR, 1, 0, -1);
+        mk(OP_WRITE, 1, 0, -1);
+        mk(OP_COPY_ASSIGN, 0, 1, -1);
+        mk(OP_MOVE_CTOR, 2, 1, -1);
+        mk(OP_WRITE, 2, 0, -1);
+        mk(OP_DESTROY, 1, 0, -1);
+        mk(OP_MOVE_ASSIGN, 0, 2, -1);
+        mk(OP_LOOKUP, 0, 0, -1);
+    } else { // C15
+        mk(OP_LOOKUP, 0, 0, -1);
+        mk(OP_COPY_CTOR, 1, 0, -1);
+        mk(OP_WRITE, 1, 0, -1);
+        if (io_ok) {
+            mk(OP_DUMP, 1, 0, -1);
+            mk(OP_DESTROY, 0, 0, -1);
+            mk(OP_LOAD, 0, 0, it.b);
+        }
+        mk(OP_COPY_ASSIGN, 1, 0, -1);
+        mk(OP_LOOKUP, 1, 0, -1);
+        mk(OP_LOOKUP, 0, 0, -1);
+    }
+    return p;
+}
+
+// hugesweep (C12, C15): construction of lattices the simulated machine cannot hold (2^31 ..
+// 2^40 cells). One Construct per plan; stack by run index, extents by seed.
+Plan gen_huge_plan(const std::string &property, uint64_t seed, uint64_t index, bool thorough, const Disabled &dis)
+{
+    Plan p;
+    p.property = property;
+    p.profile = "hugesweep";
+    p.seed = seed;
+    p.nslots = 2;
+    p.nice = 1;
+    Rng rk(seed);
+    std::vector<int> st;
+    for (int i = 0; i < g_nstacks; ++i) {
+        const StackDesc &d = g_stacks[i];
+        if ((thorough || d.tier == 0) && !dis.core(d) && d.shape == SHAPE_LAYOUT && !d.device)
+            st.push_back(i);
+    }
+    if (st.empty())
+        return p;
+    const StackDesc &d = g_stacks[st[index % st.size()]];
+    Op c;
+    c.kind = OP_CONSTRUCT;
+    c.a = 0;
+    c.stack = d.index;
+    for (int attempt = 0; attempt < 100; ++attempt) {
+        static const int totals[] = {31, 32, 32, 32, 33, 34, 36, 40};
+        int total = totals[rk.below(8)];
+        std::vector<int> bits(d.N, 0);
+        for (int k = 0; k < total; ++k)
+            ++bits[rk.below(d.N)];
+        c.ext.assign(d.N, 1);
+        int mx = 0;
+        for (int k = 0; k < d.N; ++k) {
+            size_t v = size_t(1) << bits[k];
+            switch (rk.below(4)) {
+            case 0:
+                v += 1;
+                break;
+            case 1:
+                v += (size_t)rk.range(1, 9);
+                break;
+            default:
+                break;
+            }
+            c.ext[k] = v;
+            mx = std::max(mx, bits[k] + 1);
+        }
+        // the padded storage of a curve (largest axis rounded up to a power of two, to the
+        // N-th power) must itself stay far below 2^64 for the model's own arithmetic
+        if (d.N * (mx + 1) <= 60)
+            break;
+    }
+    c.vseed = rk.next() & 0xffffffffffffull;
+    p.ops.push_back(c);
+    Op w;
+    w.kind = OP_DESTROY;
+    w.a = 0;
+    p.ops.push_back(w);
+    return p;
+}
+
 // allocsweep (C05, C12): the allocation-failure point is enumerated, not sampled. For every
 // conversion pair the k-th allocation of the conversion is failed for k = 1..ALLOC_K_CONV;
 // for every stack the k-th allocation of a copy construction, copy assignment, load,
@@ -1610,6 +1969,10 @@ Plan gen_plan(const std::string &property, const std::string &profile, uint64_t 
         return gen_alloc_plan(property, seed, index, thorough, dis);
     if (profile == "convsweep" || profile == "rtsweep")
         return gen_sweep_plan(property, profile, seed, index, thorough, dis);
+    if (profile == "bigsweep")
+        return gen_big_plan(property, seed, index, thorough, dis);
+    if (profile == "hugesweep")
+        return gen_huge_plan(property, seed, index, thorough, dis);
     Plan p;
     p.property = property;
     p.profile = profile;
@@ -2176,6 +2539,8 @@ int main(int argc, char **argv)
             total = own_total(thorough, dis);
         else if (profile == "allocsweep")
             total = alloc_total(thorough, dis);
+        else if (profile == "bigsweep")
+            total = big_items(property, thorough, dis).size() * 8;
         else
             sweep_items(profile, thorough, dis, total);
         std::printf("SWEEP %llu\n", (unsigned long long)total);
